@@ -73,7 +73,7 @@ PROPS = {
              search=[fam("indexgrid", n=3), fam("random", n=30000)]),
     "C08": P("C08", ["LSProofs.Props.C08"], ["ev", "ptr", "kind"],
              [fam("clones", n=300), ENUM_Q], [fam("clones", n=3000), ENUM_T, RANDOM_T], ["matchTypeArms", "libGlue"],
-             search=[fam("clones", n=3000), fam("random", n=30000)]),
+             search=[fam("clones", n=3000), fam("random", n=30000)], loom=True),
     "C09": P("C09", ["LSProofs.Props.C09"], ["kind", "ev", "cap", "ptr"],
              [fam("inline", n=1), RANDOM_Q], [fam("inline", n=3), RANDOM_T, ENUM_T], G09,
              search=[fam("inline", n=3), fam("random", n=30000)]),
@@ -81,8 +81,8 @@ PROPS = {
              [fam("statics", n=300), ENUM_Q], [fam("statics", n=3000), ENUM_T, RANDOM_T], G10,
              search=[fam("statics", n=3000), fam("random", n=30000)]),
     "C11": P("C11", ["LSProofs.Props.C11", "LSProofs.Resource"], ["cap", "len", "ptr", "ev", "rc"],
-             [fam("capacity", n=300), RANDOM_Q], [fam("capacity", n=3000), RANDOM_T, ENUM_T], G11,
-             search=[fam("capacity", n=3000), fam("random", n=30000)]),
+             [fam("capacity", n=300), RANDOM_Q, fam("faultsweep", n=120)], [fam("capacity", n=3000), RANDOM_T, ENUM_T, fam("faultsweep", n=1500)], G11,
+             search=[fam("capacity", n=3000), fam("faultsweep", n=1500), fam("random", n=30000)]),
     "C12": P("C12", ["LSProofs.Props.C12", "LSProofs.Amortized"], ["cap"],
              [fam("growth", n=1), RANDOM_Q], [fam("growth", n=4), RANDOM_T], ["amortizedGrowth", "heapMaxLen", "growthCallArgs"],
              search=[fam("growth", n=4), fam("random", n=30000)]),
